@@ -7,6 +7,8 @@ import (
 	"hash/fnv"
 	"math/rand/v2"
 	"net"
+	"os"
+	"sort"
 	"strings"
 	"sync"
 	"sync/atomic"
@@ -299,22 +301,53 @@ var fifoModel = porcupine.Model{
 	Equal: func(a, b interface{}) bool { return a.(string) == b.(string) },
 }
 
+// nriStacks returns the goroutines that sit in NRI code, the ones that hold or wait for locks, relay a
+// request or run a registration first; the complete dump is kept in a file under /verif/replays/hangs.
 func nriStacks() string {
-	var out []string
-	for _, g := range strings.Split(allStacks(), "\n\n") {
-		if strings.Contains(g, "containerd/nri/pkg/") {
-			if len(g) > 1500 {
-				g = g[:1500]
+	all := allStacks()
+	os.MkdirAll("/verif/replays/hangs", 0o755)
+	file := fmt.Sprintf("/verif/replays/hangs/%d.%d.txt", os.Getpid(), rig.Tick())
+	os.WriteFile(file, []byte(all), 0o644)
+	score := func(g string) int {
+		sc := 0
+		for _, k := range []string{"sync.(*Mutex).Lock", "sync.(*RWMutex)", "acceptPluginConnections", "adaptation.(*Adaptation).", "stub.(*stub).Start",
+			"stub.(*stub).Stop", "stub.(*stub).Wait", "stub.(*stub).connClosed", "(*mux).Close", "(*mux).write", "(*plugin).close", "(*plugin).synchronize"} {
+			if strings.Contains(g, k) {
+				sc += 2
 			}
-			out = append(out, g)
 		}
-		if len(out) >= 12 {
+		if strings.Contains(g, "connListener).Accept") || strings.Contains(g, "(*serverConn).run") {
+			sc-- // idle servers
+		}
+		return sc
+	}
+	var gs []string
+	for _, g := range strings.Split(all, "\n\n") {
+		if strings.Contains(g, "containerd/nri/pkg/") {
+			gs = append(gs, g)
+		}
+	}
+	sort.SliceStable(gs, func(i, j int) bool { return score(gs[i]) > score(gs[j]) })
+	var out []string
+	for _, g := range gs {
+		// keep function lines, drop file/line lines: more goroutines fit
+		var fl []string
+		for _, l := range strings.Split(g, "\n") {
+			if !strings.HasPrefix(l, "\t") {
+				fl = append(fl, l)
+			}
+		}
+		g = strings.Join(fl, "\n")
+		if len(g) > 600 {
+			g = g[:600]
+		}
+		out = append(out, g)
+		if len(out) >= 8 {
 			break
 		}
 	}
-	return strings.Join(out, "\n\n")
+	return "(full dump: " + file + ")\n" + strings.Join(out, "\n\n")
 }
-
 
 // recvN reads n complete messages from c (through a fresh parser starting at sequence seq0) or reports why not.
 func recvN(c net.Conn, id uint32, seq0 uint32, n int, d time.Duration) string {
